@@ -356,6 +356,24 @@ def corpus():
                  "body": [("assign", "f", ("choice", [(c(F(1, 2)), c(0)), (c(F(1, 2)), c(3))])),
                           ("if", [(("and", ("not", eq("f", 0)), ("not", eq("f", 0))), [inc("x", c(1))])], [inc("y", v("f"))])]},
                 [{"x": 1}, {"y": 1}, {"x": 1, "y": 1}], "duplicate-negated-conjunct"))
+    # --- a finite type with minimum 0, maximum 1 and an interior value (not a binary type), powers >= 2 carried to later
+    #     assignments
+    out.append(({"types": [], "init": [("assign", "m", P.det(c(0))), ("assign", "s", P.det(c(0))), ("assign", "t", P.det(c(0)))], "guard": ("true",),
+                 "body": [inc("s", ("pow", v("m"), 2)), inc("t", ("sub", ("pow", v("m"), 2), ("pow", v("m"), 3))),
+                          ("assign", "m", ("choice", [(c(F(1, 3)), c(0)), (c(F(1, 3)), c(F(1, 2))), (c(F(1, 3)), c(1))]))]},
+                [{"s": 1}, {"t": 1}, {"s": 1, "m": 2}], "unit-interval-type-with-interior-value"))
+    # --- comparisons written with the integer literal on the LEFT (1 < x, 0 <= t as a guard)
+    out.append(({"types": [], "init": [("assign", "x", P.det(c(0))), ("assign", "y", P.det(c(0)))], "guard": ("true",),
+                 "body": [fin3("x"),
+                          ("if", [(("atom", c(1), "<", v("x")), [inc("y", c(1))]), (("atom", c(1), "<=", v("x")), [inc("y", c(2))])], [inc("y", c(5))])]},
+                [{"y": 1}, {"x": 1, "y": 1}], "literal-on-the-left"))
+    out.append(({"types": [], "init": [("assign", "t", P.det(c(0))), ("assign", "y", P.det(c(0)))], "guard": ("atom", c(0), "<=", v("t")),
+                 "body": [("assign", "t", ("choice", [(c(F(1, 2)), c(0)), (c(F(1, 4)), c(1)), (c(F(1, 4)), c(-1))])), inc("y", c(1))]},
+                [{"y": 1}, {"t": 1, "y": 1}], "literal-on-the-left-guard"))
+    out.append(({"types": [], "init": [("assign", "x", P.det(c(0))), ("assign", "y", P.det(c(0)))], "guard": ("true",),
+                 "body": [fin3("x"),
+                          ("if", [(("atom", c(2), ">", v("x")), [inc("y", v("x"))]), (("atom", c(2), ">=", v("x")), [inc("y", c(3))])], None)]},
+                [{"y": 1}, {"y": 2}], "literal-on-the-left-gt"))
     # --- conditioned draw into a variable assigned earlier in the same iteration (default = previous version)
     out.append(({"types": [], "init": [("assign", "f", P.det(c(0))), ("assign", "x", P.det(c(0))), ("assign", "y", P.det(c(0)))],
                  "guard": ("true",),
